@@ -25,7 +25,9 @@ func (p Address) MarshalBinary() (data []byte, err error) {
 	if p.TON != 0b101 {
 		_, err = semioctet.EncodeSemiAddress(&buf, p.No)
 	} else {
-		_, err = gsm7bit.Packed.NewEncoder().Writer(&buf).Write([]byte(p.No))
+		var packed []byte
+		packed, err = gsm7bit.Packed.NewEncoder().Bytes([]byte(p.No))
+		buf.Write(packed)
 	}
 	data = buf.Bytes()
 	data[0] = byte(len(data) - 2)
